@@ -7,7 +7,9 @@
 (*   side "server": a hand-driven client sent USERAUTH_REQUEST(publickey) naming    *)
 (*        decl, with a genuine signature made with `sign` over the correct session  *)
 (*        blob, the signature blob naming `blob`; accepted = USERAUTH_SUCCESS /      *)
-(*        Transport.is_authenticated()                                              *)
+(*        Transport.is_authenticated(); probe = the algorithm named by an unsigned   *)
+(*        request for the same key sent first ("none" if there was none),           *)
+(*        probe_ok = it was answered with PK_OK                                     *)
 (*   enabled = the verifier's enabled algorithm names as read from the live          *)
 (*        Transport (preferred_keys / preferred_pubkeys, cert suffix dropped)        *)
 EXTENDS SigAlg, Sequences, Json, IOUtils, TLCExt
@@ -19,17 +21,20 @@ En == {R.enabled[i] : i \in 1..Len(R.enabled)}
 
 TInit == tid \in 1..Len(Batch) /\ l = 1 /\ bad = {}
          /\ side = R.side /\ fam = Family(R.decl) /\ decl = R.decl /\ cert = R.cert /\ sign = R.sign /\ blob = R.blob
-         /\ enabled = En /\ phase = "start"
+         /\ enabled = En /\ probe = R.probe /\ phase = "start"
 
 Clause(ok, name) == IF ok THEN {} ELSE {name}
 
 TNext == /\ l = 1 /\ l' = 2 /\ tid' = tid
          /\ phase' = IF R.accepted THEN "accepted" ELSE "rejected"
-         /\ UNCHANGED <<side, fam, decl, cert, sign, blob, enabled>>
+         /\ UNCHANGED <<side, fam, decl, cert, sign, blob, enabled, probe>>
          /\ bad' = Clause(UsesDeclaredP(R.accepted, decl, sign, blob), "P_accepts_algorithm_other_than_declared")
                    \cup Clause(OnlyEnabledP(R.accepted, sign, blob, enabled), "P_accepts_disabled_algorithm")
-                   \cup Clause(~R.accepted => ~MayAccept(decl, sign, blob, enabled), "C_proper_signature_rejected")
-                   \cup Clause(R.accepted \in {PinnedAccepts(decl, sign, blob, enabled), MayAccept(decl, sign, blob, enabled)},
+                   \cup Clause(~R.accepted => ~MayAccept(decl, sign, blob, enabled) \/ ~SessionAlive(probe, enabled),
+                               "C_proper_signature_rejected")
+                   \cup Clause(probe # "none" => (R.probe_ok = SessionAlive(probe, enabled)), "C_probe_answer_differs")
+                   \cup Clause(R.accepted \in {PinnedAccepts(decl, sign, blob, enabled) /\ SessionAlive(probe, enabled),
+                                              MayAccept(decl, sign, blob, enabled) /\ SessionAlive(probe, enabled)},
                                "C_matches_neither_pinned_nor_repaired_model")
 TSpec == TInit /\ [][TNext]_tvars
 Report == /\ (bad # {} => PrintT(<<"VERDICT", tid, bad>>))
